@@ -95,6 +95,13 @@ CHECKS = {
          "multisets / rankings, float kernels self-tested against numpy; judged on six discretizer classes over the min_freq grid.",
     ref="DESIGN.md section 8 C09", technique="Lean 4 proof (loop invariant / termination, sortedness, membership) + function-level model/code correspondence",
     note=BASE_NOTE + " The 2.5*min_freq bucket bound is judged on the code only (it needs accuracy of numpy's float quantile index)."),
+ "C18": dict(
+    text="Lean theorems about the model of ChainedDiscretizer._prepare_data + fit: through every level of any hierarchy the feature's order stays a well-formed partition and no value "
+         "disappears (level_preserves, fitLevels_preserves by induction over the levels), a frequent value is never rewritten (level_target), unknown values are refused under 'raise'. "
+         "Correspondence: fitted values_orders of the real class vs the model on random hierarchies/samples; judged on the code: hierarchy values kept, own-modality-iff-frequent, "
+         "merged into an ancestor, rare intermediate groups merged further up, unknown handling, transform = group leader.",
+    ref="DESIGN.md section 8 C18", technique="Lean 4 proof (invariant by induction over hierarchy levels) + model/code correspondence",
+    note=BASE_NOTE + " The flattening of levels into known_values (__init__) is read from the object, not modelled; numeric columns (StringDiscretizer twins) are judged but not compared with the model."),
 }
 NOT_YET = "check not built yet (construction in progress, see DESIGN.md section 13); will be claimed once its model, theorems and correspondence exist"
 
